@@ -16,7 +16,8 @@ struct Op
 };
 struct Case
 {
-    uint8_t mode{0};  // 0 API writes -> raw bytes, 1 hand-laid bytes -> getters, 2 default object / header size, 3 Packet raw headers
+    uint8_t mode{0};  // 0 API writes -> raw bytes, 1 hand-laid bytes -> getters, 2 default object / header size, 3 Packet raw headers,
+                      // 4 length-prefixed variable part of the capture-module / interface status payloads (both directions)
     uint8_t cls{0};
     uint8_t bg{0};
     uint32_t seed{0};
@@ -28,6 +29,7 @@ struct Case
     uint16_t dev{0};
     uint8_t stream{0};
     uint16_t seq{0};
+    std::vector<uint32_t> varLens;  // mode 4: four string lengths + vendor length (capture-module) or stream-id count + vendor length (interface)
     void io(Ar& a)
     {
         a.num("mode", mode);
@@ -41,6 +43,8 @@ struct Case
         a.num("dev", dev);
         a.num("stream", stream);
         a.num("seq", seq);
+        if (a.writing || a.peekName() == "varLens")
+            a.numvec("varLens", varLens);
     }
 };
 
@@ -257,15 +261,101 @@ static Verdict runPacketHeaders(const Case& c, Info& info)
     return Verdict::pass();
 }
 
+// the length-prefixed fields behind the fixed headers: uint16 big-endian prefixes, NUL-terminated strings padded to even
+// length, stream ids padded to even length, vendor data - written through setData and read back from hand-laid bytes
+static Verdict runVariablePart(const Case& c, Info& info)
+{
+    auto len = [&](size_t i, uint32_t cap) { return i < c.varLens.size() ? std::min(c.varLens[i], cap) : 0u; };
+    bool prefixLowByteHigh = false;
+    if (c.cls % 2 == 0)
+    {
+        std::string str[4];
+        for (int i = 0; i < 4; ++i)
+            str[i] = fillString(c.seed + static_cast<uint32_t>(i), len(static_cast<size_t>(i), 700));
+        Bytes vendor = fillBytes(c.seed ^ 0x99, len(4, 700));
+        wire::CmFields f;
+        f.uptime = c.seed * 0x0101010101ull;
+        f.gptpFlags = static_cast<uint8_t>(c.seed);
+        Bytes expect = wire::buildCm(f, str[0], str[1], str[2], str[3], vendor);
+        // API -> bytes
+        lib::CaptureModulePayload p;
+        p.setUptime(f.uptime);
+        p.setGptpFlags(f.gptpFlags);
+        p.setData(str[0], str[1], str[2], str[3], vendor);
+        Bytes raw(p.getRawPayload(), p.getRawPayload() + p.getLength());
+        VF_CHECK(raw == expect, "CaptureModulePayload::setData lays the variable part out as " << hexOf(raw.data() + 26, std::min<size_t>(raw.size() - 26, 60))
+                                                                                                 << "..., the layout prescribes " << hexOf(expect.data() + 26, std::min<size_t>(expect.size() - 26, 60)) << "...");
+        // bytes -> getters
+        lib::CaptureModulePayload q(expect.data(), expect.size());
+        VF_CHECK(std::string(q.getDeviceDescription()) == str[0] && std::string(q.getSerialNumber()) == str[1] &&
+                     std::string(q.getHardwareVersion()) == str[2] && std::string(q.getSoftwareVersion()) == str[3],
+                 "strings read back from hand-laid bytes differ (lengths " << str[0].size() << "," << str[1].size() << "," << str[2].size() << "," << str[3].size() << ")");
+        VF_CHECK(q.getVendorDataLength() == vendor.size(), "vendor data length read back as " << q.getVendorDataLength() << ", the bytes say " << vendor.size());
+        VF_CHECK(vendor.empty() || (q.getVendorData() && memcmp(q.getVendorData(), vendor.data(), vendor.size()) == 0), "vendor data read back differs");
+        VF_CHECK(q.getVendorDataStringView().size() == vendor.size(), "vendor data string view length " << q.getVendorDataStringView().size());
+        for (int i = 0; i < 4; ++i)
+            if (((str[i].size() + 1 + ((str[i].size() + 1) % 2)) & 0x80))
+                prefixLowByteHigh = true;
+        if (vendor.size() & 0x80)
+            prefixLowByteHigh = true;
+        info.tag("variable_part_capture_module");
+    }
+    else
+    {
+        Bytes ids = fillBytes(c.seed, len(0, 700));
+        Bytes vendor = fillBytes(c.seed ^ 0x77, len(1, 700));
+        wire::IfFields f;
+        f.interfaceId = c.seed;
+        f.interfaceStatus = static_cast<uint8_t>(c.seed % 3);
+        Bytes expect = wire::buildIf(f, ids, vendor);
+        lib::InterfacePayload p;
+        static const uint8_t dummy = 0;
+        p.setData(ids.empty() ? &dummy : ids.data(), static_cast<uint16_t>(ids.size()), vendor.empty() ? &dummy : vendor.data(), static_cast<uint16_t>(vendor.size()));
+        p.setInterfaceId(f.interfaceId);
+        p.setInterfaceStatus(static_cast<lib::InterfacePayload::InterfaceStatus>(f.interfaceStatus));
+        Bytes raw(p.getRawPayload(), p.getRawPayload() + p.getLength());
+        VF_CHECK(raw == expect, "InterfacePayload::setData lays the variable part out as " << hexOf(raw.data() + 36, std::min<size_t>(raw.size() - 36, 60))
+                                                                                            << "..., the layout prescribes " << hexOf(expect.data() + 36, std::min<size_t>(expect.size() - 36, 60)) << "...");
+        lib::InterfacePayload q(expect.data(), expect.size());
+        VF_CHECK(q.getStreamIdsCount() == ids.size(), "stream id count read back as " << q.getStreamIdsCount() << ", the bytes say " << ids.size());
+        VF_CHECK(q.getVendorDataLength() == vendor.size(), "vendor data length read back as " << q.getVendorDataLength() << ", the bytes say " << vendor.size());
+        VF_CHECK(ids.empty() || (q.getStreamIds() && memcmp(q.getStreamIds(), ids.data(), ids.size()) == 0), "stream ids read back differ");
+        VF_CHECK(vendor.empty() || (q.getVendorData() && memcmp(q.getVendorData(), vendor.data(), vendor.size()) == 0), "vendor data read back differs");
+        if ((ids.size() & 0x80) || (vendor.size() & 0x80))
+            prefixLowByteHigh = true;
+        info.tag("variable_part_interface");
+    }
+    if (prefixLowByteHigh)
+        info.tag("length_prefix_with_low_byte_0x80_or_more");
+    info.nontrivial = true;
+    return Verdict::pass();
+}
+
 static Verdict runCase(const Case& c, Info& info)
 {
     if (c.mode == 3)
         return runPacketHeaders(c, info);
+    if (c.mode == 4)
+        return runVariablePart(c, info);
     return withClass(c.cls % kFieldClassCount, [&](auto desc) { return runOn(desc, c, info); });
 }
 
 static void enumerate(int, const std::function<bool(const Case&)>& emit)
 {
+    // variable part: every length 0..520 for one field at a time (the others short), both payload classes
+    for (uint8_t cls = 0; cls < 2; ++cls)
+        for (size_t pos = 0; pos < (cls == 0 ? 5u : 2u); ++pos)
+            for (uint32_t l = 0; l <= 520; ++l)
+            {
+                Case c;
+                c.mode = 4;
+                c.cls = cls;
+                c.seed = l * 7 + static_cast<uint32_t>(pos);
+                c.varLens.assign(5, 3);
+                c.varLens[pos] = l;
+                if (!emit(c))
+                    return;
+            }
     for (int cls = 0; cls < kFieldClassCount; ++cls)
     {
         size_t nFields = 0;
@@ -308,10 +398,19 @@ static rc::Gen<Case> genCase(int tier)
 {
     return rc::gen::exec([tier]() {
         Case c;
-        c.mode = *rc::gen::weightedElement<uint8_t>({{4, 0}, {4, 1}, {2, 3}});
+        c.mode = *rc::gen::weightedElement<uint8_t>({{4, 0}, {4, 1}, {2, 3}, {2, 4}});
         c.cls = *range<uint8_t>(0, kFieldClassCount - 1);
         c.bg = *rc::gen::weightedElement<uint8_t>({{1, 0}, {2, 1}, {5, 2}});
         c.seed = *rc::gen::arbitrary<uint32_t>();
+        if (c.mode == 4)
+        {
+            for (int i = 0; i < 5; ++i)
+                c.varLens.push_back(*rc::gen::weightedOneOf<uint32_t>({{1, rc::gen::just<uint32_t>(0)},
+                                                                       {4, range<uint32_t>(0, 20)},
+                                                                       {3, range<uint32_t>(120, 260)},
+                                                                       {2, range<uint32_t>(0, 700)}}));
+            return c;
+        }
         if (c.mode == 3)
         {
             c.packet.kind = *range<uint8_t>(0, 7);
